@@ -392,6 +392,9 @@ def fam_c04(tier, seed):
     for l in sk.bs_family(4, 4, [0, 30], tickers=("A", "B"), need_sell=True):
         if sum(1 for x in l if x[0] == "S") == 2 and [x[0] for x in l[:2]] == ["B", "B"] and len({x[1] for x in l if x[0] == "B"}) == 2:
             items.append((l, BASES[2]))
+    # several SELL lines of one security on one day separated by another security's line (non-canonical order)
+    items.append(([["B", "A", 0], ["B", "B", 0], ["S", "A", 30], ["S", "B", 30], ["S", "A", 30]], BASES[2]))
+    items.append(([["B", "A", 0], ["B", "B", 0], ["S", "A", 1], ["S", "B", 1], ["S", "A", 1], ["S", "B", 31]], BASES[2]))
     items = _dedup(items)
     sks = []
     i = 0
@@ -567,3 +570,67 @@ SPECS.update({
                 assumptions=["figures in text are located by the line formats of cgt-formatter-plain; a figure whose separators or sign are misplaced fails to map back and is reported", "exempt amounts are the embedded table's constants"],
                 outside=["PDF (Decimal -> f64 -> Typst)", "MCP tool output", "digit grouping for magnitudes the solver does not choose (the grouping code runs on the literal)"]),
 })
+
+
+# ---------------------------------------------------------------------------------------------- FX
+def fx_line(kind, day, c1, c2, ticker="A"):
+    return [kind, ticker, day, None, None, c1, c2]
+
+
+def fam_c08(tier, seed):
+    """base 2024-01-20: day 0 = 20 Jan 2024, day 20 = 9 Feb 2024, day 350 = 4 Jan 2025 (same month, another year)"""
+    base = "2024-01-20"
+    sks = []
+    i = 0
+    curs = ["USD", "EUR", "JPY"]
+    ledgers = []
+    # price and fees in different currencies, two months, two years
+    for c1 in ["GBP"] + curs:
+        for c2 in ["GBP"] + curs:
+            if c1 == c2 == "GBP":
+                continue
+            ledgers.append([fx_line("B", 0, c1, c2), fx_line("S", 20, c2, c1)])
+    ledgers.append([fx_line("B", 0, "USD", "EUR"), fx_line("S", 350, "USD", "EUR")])
+    ledgers.append([fx_line("B", 0, "USD", "USD"), fx_line("D", 20, "EUR", "USD"), fx_line("S", 350, "JPY", "GBP")])
+    ledgers.append([fx_line("B", 0, "USD", "GBP"), fx_line("C", 20, "EUR", "USD"), fx_line("S", 40, "USD", "USD")])
+    ledgers.append([fx_line("B", 0, "EUR", "USD"), fx_line("M", 20, "USD", "EUR"), fx_line("S", 40, "GBP", "JPY")])
+    ledgers.append([fx_line("B", 0, "USD", "EUR"), fx_line("B", 20, "EUR", "USD"), fx_line("S", 40, "USD", "USD")])
+    ov_sets = [
+        [],
+        [{"year": 2024, "month": 1, "rates": [["USD", "sym"]], "modified": 100}],
+        [{"year": 2024, "month": 2, "rates": [["USD", "sym"], ["EUR", "sym"]], "modified": 100}],
+        # two files for the same month: the later modification time wins, whatever the order they are listed in
+        [{"year": 2024, "month": 1, "name": "a_2024-01.xml", "rates": [["USD", "sym"]], "modified": 200},
+         {"year": 2024, "month": 1, "name": "b_2024-01.xml", "rates": [["USD", "sym"], ["EUR", "sym"]], "modified": 100}],
+        [{"year": 2024, "month": 1, "name": "a_2024-01.xml", "rates": [["USD", "sym"]]},
+         {"year": 2024, "month": 1, "name": "b_2024-01.xml", "rates": [["USD", "sym"]], "modified": 100}],
+        # a month beyond the bundled table
+        [{"year": 2031, "month": 3, "rates": [["USD", "sym"]], "modified": 100}],
+    ]
+    for l in ledgers:
+        for ov in (ov_sets if tier == "thorough" else ov_sets[:5]):
+            sks.append(mk(i, "l", l, base=base, wit=WIT, overrides=ov)); i += 1
+    # missing rates: a month beyond the bundled table, with and without an override for it; an override for another currency only
+    far = "2031-03-10"
+    for ov in ([], [{"year": 2031, "month": 3, "rates": [["USD", "sym"]], "modified": 1}], [{"year": 2031, "month": 3, "rates": [["EUR", "sym"]], "modified": 1}],
+               [{"year": 2031, "month": 4, "rates": [["USD", "sym"]], "modified": 1}], [{"year": 2030, "month": 3, "rates": [["USD", "sym"]], "modified": 1}]):
+        for l in ([fx_line("B", 0, "USD", "GBP"), fx_line("S", 1, "USD", "USD")], [fx_line("B", 0, "GBP", "USD")], [fx_line("B", 0, "GBP", "GBP"), fx_line("D", 1, "GBP", "USD")]):
+            sks.append(mk(i, "m", l, base=far, wit=WIT, overrides=ov)); i += 1
+    # malformed files: period disagreeing with the file name, rate of free sign
+    for l in ledgers[:2]:
+        sks.append(mk(i, "x", l, base=base, wit=WIT, overrides=[{"year": 2024, "month": 1, "period_month": 2, "rates": [["USD", "sym"]], "modified": 1}])); i += 1
+        sks.append(mk(i, "x", l, base=base, wit=WIT, overrides=[{"year": 2024, "month": 1, "rates": [["USD", "free"]], "modified": 1}])); i += 1
+        sks.append(mk(i, "x", l, base=base, wit=WIT, overrides=[{"year": 2024, "month": 1, "rates": [["USD", "sym"], ["USD", "free"]], "modified": 1}])); i += 1
+        sks.append(mk(i, "x", l, base=base, wit=WIT, overrides=[{"year": 2024, "month": 1, "rates": [["EUR", "sym"], ["USD", "free"], ["JPY", "sym"]], "modified": 1}])); i += 1
+    # through the CLI's read_fx_folder
+    sks.append(mk(i, "f", ledgers[0], base=base, wit=WIT, folder=1, overrides=[{"year": 2024, "month": 1, "rates": [["USD", "sym"]]}, {"year": 2031, "month": 3, "rates": [["EUR", "sym"]]}])); i += 1
+    return sks
+
+
+SPECS["C08"] = dict(
+    id="C08", families=fam_c08, entry_points=["cgt_money::load_cache_with_overrides / load_cache_with_folder_files (load_bundled_dir, expected_year_month_from_path)", "cgt_money::parser::parse_monthly_rates (quick_xml, parse_period)", "cgt_money::FxCache::{extend,insert,get}", "cgt_money::CurrencyAmount::to_gbp", "cgt_core::models::{transactions_to_gbp, Operation::to_gbp, amount_to_gbp}", "cgt_core::calculator::calculate", "cgt-cli main.rs read_fx_folder (source-extracted at build time)"],
+    bounds=bounds_rel((
+        "20 ledgers of 2..3 lines (BUY/SELL/DIVIDEND/CAPRETURN/ACCUMULATION) whose price/total and fees/tax carry every pair of {GBP, USD, EUR, JPY}, dated in Jan 2024, Feb 2024 and Jan 2025, x 5 rate-folder configurations (none; overriding one month; two files for one month in both modification-time orders; missing modification time) with symbolic rates; months beyond the bundled table with/without matching overrides; malformed files (period != file name; a rate of free sign, also as a repeated row of one currency); one configuration read through the CLI's own read_fx_folder; all amounts and rates symbolic",
+        "as quick plus a month beyond the bundled table for every ledger")),
+    assumptions=["the expected rate of a key not overridden is read from the bundled XML file on disk by a plain text scan (independent of quick_xml and FxCache)", "amounts: quantity > 0, money >= 0, override rates > 0 unless the configuration leaves the sign free"],
+    outside=["directory reading and mtime retrieval beyond the source-extracted read_fx_folder on one scratch directory", "currencies other than USD/EUR/JPY (all share one code path keyed by iso_currency::Currency)", "MCP get_fx_rate"])
